@@ -238,14 +238,14 @@ macro_rules! shape {
         }
     };
 }
-// expected to hold (only rcn_relative_ref, rcn_range finish under CBMC; the others are kept here but NOT registered: see kani/xlsxf.json "not_registered")
+// all expected to hold (rcn_relative_ref, rcn_range, rcn_function_name_with_digits, rcn_sheet_name_like_cell are registered; the others are kept here but NOT registered: see kani/xlsxf.json "not_registered")
 shape!(rcn_relative_ref, 8, "A1");
 shape!(rcn_range, 10, "A1:B2");
 shape!(rcn_absolute_and_relative, 12, "$A$1+A1");
 shape!(rcn_string_literal, 12, "\"A1\"&A1");
 shape!(rcn_function_digit_letter, 16, "DEC2BIN(A1)"); // letter+digit+letter followed by `(`
 shape!(rcn_sheet_digit_letter, 15, "Q1Sales!A1"); // sheet name with a digit followed by a letter
-// expected to fail on the pinned code (registered findings)
+// failed before the scanner was rewritten (`$` as separator, names rewritten, `c as u8`)
 shape!(rcn_mixed_col_absolute, 8, "$A1");
 shape!(rcn_mixed_row_absolute, 8, "A$1");
 shape!(rcn_function_name_with_digits, 14, "LOG10(A1)");
